@@ -72,7 +72,9 @@ def parseTree : Nat → List String → Option (E × List String)
     | 'W' => do let tk ← body.toNat? >>= tokenOfNat; pure (.wildcard tk, rest)
     | 'R' => do let (_, h) ← afterColon body; let s ← decHex h; pure (.regex s, rest)
     | 'S' => do let (_, h) ← afterColon body; let s ← decHex h; pure (.str s, rest)
-    | 'F' => do let b ← body.toNat?; pure (.num (Float.ofBits (UInt64.ofNat b)), rest)
+    | 'F' =>
+      if body == "nan" then pure (.num floatNaN, rest)
+      else do let b ← body.toNat?; pure (.num (Float.ofBits (UInt64.ofNat b)), rest)
     | 'I' => do let v ← body.toInt?; pure (.int v, rest)
     | 'U' => do let v ← body.toNat?; pure (.uint v, rest)
     | 'T' => pure (.bool (body == "1"), rest)
